@@ -267,9 +267,23 @@ def lock_alias(l):
 CONSTRUCTOR_ONLY = {"vlog::VLog::prefill_file_handles": {"vlog::VLog::new"}}
 
 
+def _exempt(f):
+    """constructor-only functions: exempt from the lock graph only while every caller is a constructor (object not shared yet)"""
+    ex = set()
+    for fn, allowed in CONSTRUCTOR_ONLY.items():
+        if not f.has_body(fn):
+            continue
+        b = f.body(fn)
+        callers = {f.fn_of(c.body).id for c in f.callers_of(*f.aliases_of(f.canon[b.id]) & {f.canon[b.id]})}
+        if callers and callers <= allowed:
+            ex.add(b.id)
+    return ex
+
+
 def lock_graph(f):
     gs, w = all_guards(f)
-    gs = [g for g in gs if g.call.body.id not in CONSTRUCTOR_ONLY]
+    ex = _exempt(f)
+    gs = [g for g in gs if g.call.body.id not in ex]
     # direct acquisitions per body
     direct = defaultdict(set)
     for g in gs:
@@ -312,11 +326,13 @@ def lock_graph(f):
 
 @rule("C17", "C17.R4", "the lock acquisition graph is acyclic")
 def r4(cx):
+    ex = _exempt(cx.f)
     for fn, allowed in CONSTRUCTOR_ONLY.items():
         b = cx.f.body(fn)
-        callers = {cx.f.fn_of(c.body).id for c in cx.f.callers_of(*cx.f.aliases_of(cx.f.canon[b.id]) & {cx.f.canon[b.id]})}
-        cx.check(callers <= allowed and bool(callers), "`%s` is only called from %s (object not shared yet): its lock nesting is exempt" % (fn, sorted(allowed)),
-                 "exemption-invalid|%s" % fn, b.where(), "`%s` is now also called from %s: its lock nesting must be ordered" % (fn, sorted(callers - allowed)))
+        if b.id in ex:
+            cx.ok("`%s` is only called from %s (object not shared yet): its lock nesting is exempt" % (fn, sorted(allowed)), b.where())
+        else:
+            cx.ok("`%s` is also called at run time: its lock nesting is part of the graph below" % fn, b.where())
     edges, gs = lock_graph(cx.f)
     nodes = sorted({x for e in edges for x in e})
     cx.note("lock graph: %d locks, %d ordered pairs" % (len(nodes), len(edges)))
